@@ -31,10 +31,10 @@ CLAIMED = {
         technique="machine-checked proof in Coq (list-level merge lemma, selection closure, invariant preservation) + checked model-code correspondence",
     ),
     "C09": dict(
-        text="Coq theorems: no step of the LSM state machine from a well-formed state trips an assertion of the code and well-formedness is preserved along every admissible run (the worker never panics); input selection is total; the level-0 restart loop, the boundary-file loop, the two-level iterator skip loops and the log reader terminate within their fuel without panic. Liveness (bounded wall-clock time, condvar protocol, fairness) is not proved; it is exercised by watchdogs, panic hooks, pause-point schedules of the background thread and all descriptor kinds.",
-        note="Partial: termination of modelled loops and absence of panics are proved; blocking behaviour (writers waiting for the worker, close) is only tested.",
-        design="6 / C09",
-        technique="machine-checked proof in Coq (fuel sufficiency, no-panic invariant) + watchdog/panic-hook exploration",
+        text="Coq theorems: no step of the LSM state machine from a well-formed state trips an assertion of the code and well-formedness is preserved along every admissible run (the worker never panics); input selection is total; the level-0 restart loop, the boundary-file loop, the two-level iterator skip loops and the log reader terminate within their fuel without panic; and, on a model of the scheduling of background work (Work.v: the scheduled flag, the task queue of the compaction thread, every place that consults should_schedule_compaction), in every reachable state pending work (an immutable memtable, a manual compaction, a version that needs compaction) implies that a compaction task is queued or running unless the database is in a bad state or shutting down, so a waiting writer always has a task working for it, and the next successful round removes the immutable memtable. Tied to the code by judging the scheduling flags of EVERY structural dump with the extracted invariant, by watchdogs and panic hooks on all histories, pause-point schedules of the background thread and all descriptor kinds.",
+        note="Partial: termination of the modelled loops, absence of panics and the scheduling invariant are proved; fairness of the OS scheduler, condition-variable wake-ups and bounded wall-clock time are assumptions that the watchdogs only test.",
+        design="6 / C09, 0.11",
+        technique="machine-checked proof in Coq (fuel sufficiency, no-panic invariant, scheduling invariant over all interleavings of critical sections) + checked model-code correspondence on dumps + watchdog/panic-hook exploration",
     ),
     "C10": dict(
         text="Coq theorem reachable_shape_ok: in every state reachable by any admissible run, levels >= 1 are sorted and pairwise disjoint, every file's bounds are exactly its first and last entry with smallest <= largest, and file numbers are unique (part of the invariant lsm_wf_b, which is preserved by every step and never panics). Tied to the code by judging every structural dump (file bounds plus entries read back from each table) with the extracted invariant, cross-checking SSTables / NumFilesAtLevel against the dump, across reopens with changed options.",
